@@ -91,6 +91,41 @@ def trig_exclude_derived_with_derived_dep(case):
     return False
 
 
+def _has_con(case, kind):
+    return any(k["c"] == kind for k in _all_cons(case["block"]))
+
+
+def trig_has_exactly_k_in_a_row(case):
+    return _has_con(case, "ExactlyKInARow")
+
+
+def trig_has_sequential(case):
+    return _has_con(case, "Sequential")
+
+
+def trig_has_latin_square(case):
+    return _has_con(case, "LatinSquare")
+
+
+def trig_repeat_or_merge(case):
+    return any(b["op"] in ("Repeat", "Merge") for b in _all_blocks(case["block"]))
+
+
+def trig_uncrossed_transition(case):
+    F = _factors(case)
+    crossed = set(i for X in _crossings(case["block"]) for i in X)
+    import ir_ids
+    return any(F[i - 1]["kind"] == "d" and F[i - 1]["width"] == 2 and i not in crossed for i in ir_ids.design_ids(case["block"]))
+
+
+def trig_derived_of_complex(case):
+    F = _factors(case)
+    for f in F:
+        if f["kind"] == "d" and any(F[g - 1]["kind"] == "d" and (F[g - 1]["width"] > 1 or F[g - 1]["start"] > 0) for g in f["deps"]):
+            return True
+    return False
+
+
 def trig_any(case):
     return True
 
@@ -98,6 +133,12 @@ def trig_any(case):
 TRIGGERS = {
     "crossed_within_of_derived": trig_crossed_within_of_derived,
     "exclude_derived_with_derived_dep": trig_exclude_derived_with_derived_dep,
+    "has_exactly_k_in_a_row": trig_has_exactly_k_in_a_row,
+    "has_sequential": trig_has_sequential,
+    "has_latin_square": trig_has_latin_square,
+    "repeat_or_merge": trig_repeat_or_merge,
+    "uncrossed_transition": trig_uncrossed_transition,
+    "derived_of_complex": trig_derived_of_complex,
     "any": trig_any,
 }
 
